@@ -39,6 +39,7 @@ CONSTANTS
     BurstUniverse,  \* call descriptions used for bursts of overlapping first calls
     BurstSizes,     \* how many calls overlap in a burst
     MaxCalls, MaxSets, MaxTicks, MaxDowns, MaxBursts,
+    MidCall,        \* TRUE: the table may change and the clean-up may run while a call is in flight
     CleanupCloses,  \* TRUE = the design.  FALSE = a deviation ("pool entries are never
                     \* deleted") kept only to show that the pool invariants are not vacuous.
     PoolRace        \* what a call does that dialled because it found no pool entry and then finds
@@ -75,7 +76,9 @@ IsPrefix(p, q) == Len(p) <= Len(q) /\ \A i \in 1..Len(p) : p[i] = q[i]
 
 \* Routing as documented: routes of the named host first, else the host-less routes;
 \* among the candidates the longest matching path prefix.
-Cands(t, h, path) == {s \in Slots : t[s] # NoBackend /\ s.host \in HostOf(h) /\ IsPrefix(s.path, path)}
+\* A slot with zero = TRUE is a target that is in the table with weight 0 (all traffic of its route goes to
+\* its sibling): it is never picked, but its backend IS in the table.
+Cands(t, h, path) == {s \in Slots : t[s] # NoBackend /\ ~s.zero /\ s.host \in HostOf(h) /\ IsPrefix(s.path, path)}
 Longest(S) == CHOOSE s \in S : \A u \in S : Len(u.path) <= Len(s.path)
 Best(t, h, path) ==
     IF h # "" /\ Cands(t, h, path) # {} THEN t[Longest(Cands(t, h, path))]
@@ -111,7 +114,7 @@ SetTable(t) ==
 
 CallStart(c) ==
     /\ cur' = [pc |-> "start", c |-> c, be |-> NoBackend, conn |-> "none", acc0 |-> accepted,
-               bgot |-> <<>>, beof |-> FALSE, cgot |-> <<>>, ord |-> <<>>,
+               bgot |-> <<>>, beof |-> FALSE, cgot |-> <<>>, ord |-> <<>>, tabs |-> <<>>,
                code |-> -1, msg |-> "", hdr |-> "none", trl |-> "none", unav |-> "no"]
     /\ cnt' = [cnt EXCEPT !.calls = @ + 1]
     /\ UNCHANGED <<table, net, bst, hist>>
@@ -122,7 +125,7 @@ Route ==
     /\ UNCHANGED <<table, net, bst, cnt, hist>>
 
 CallRecord == [op |-> "call", call |-> cur'.c, be |-> cur'.be, conn |-> cur'.conn,
-               bgot |-> cur'.bgot, beof |-> cur'.beof, cgot |-> cur'.cgot, ord |-> cur'.ord,
+               bgot |-> cur'.bgot, beof |-> cur'.beof, cgot |-> cur'.cgot, ord |-> cur'.ord, tabs |-> cur'.tabs,
                code |-> cur'.code, msg |-> cur'.msg, hdr |-> cur'.hdr, trl |-> cur'.trl, unav |-> cur'.unav]
 
 \* NotFound is the proxy's own answer; no backend is involved.
@@ -212,6 +215,29 @@ Finish ==
                           !.ord = Append(@, "f")]
     /\ hist' = Append(hist, CallRecord)
     /\ UNCHANGED <<table, net, bst, cnt>>
+
+\* While a call is in flight the control plane installs another table ("t") ...
+SetTableMid(t) ==
+    /\ MidCall /\ cur.pc = "open" /\ cnt.sets < MaxSets /\ t # table
+    /\ table' = t
+    /\ stale' = stale \cup (pool \ Targets(t))
+    /\ cnt' = [cnt EXCEPT !.sets = @ + 1]
+    /\ cur' = [cur EXCEPT !.ord = Append(@, "t"), !.tabs = Append(@, t)]
+    /\ UNCHANGED <<pool, live, closing, open, accepted, up, bst, hist>>
+\* ... and the periodic clean-up runs ("k").  The call's backend is still in the table -- possibly with weight 0,
+\* i.e. without new traffic -- so its connection stays and the call goes on.  (Nothing is said here about a call
+\* whose backend has left the table altogether.)
+CleanupTickMid ==
+    /\ MidCall /\ cur.pc = "open" /\ cnt.ticks < MaxTicks /\ cur.be \in Targets(table)
+    /\ LET gone == pool \ Targets(table) IN
+       /\ pool' = pool \ gone
+       /\ stale' = stale \ gone
+       /\ live' = live \ gone
+       /\ closing' = [b \in Backends |-> closing[b] + IF b \in gone \cap live THEN 1 ELSE 0]
+    /\ cnt' = [cnt EXCEPT !.ticks = @ + 1]
+    /\ cur' = [cur EXCEPT !.ord = Append(@, "k")]
+    /\ UNCHANGED <<table, open, accepted, up, bst, hist>>
+SetTableMidAny == MidCall /\ cur.pc = "open" /\ cnt.sets < MaxSets /\ \E t \in Tables : SetTableMid(t)
 
 Return ==
     /\ cur.pc = "done"
@@ -341,6 +367,7 @@ Next ==
     \/ CallStartAny
     \/ Route \/ NotFound \/ Dial \/ Reuse \/ Unavailable \/ Reconnect \/ StillBackingOff
     \/ MsgToBackend \/ EofToBackend \/ MsgToCaller \/ Finish \/ Return
+    \/ SetTableMidAny \/ CleanupTickMid
     \/ CleanupTick
     \/ \E b \in Backends : Drop(b)
     \/ Outage
@@ -372,8 +399,7 @@ Transparent ==
         /\ cur.cgot = cur.c.resps
         /\ cur.code = cur.c.code /\ cur.msg = cur.c.msg /\ cur.trl = cur.c.trl
         /\ (Len(cur.c.resps) > 0 => cur.hdr = cur.c.hdr)
-        /\ cur.be \in Targets(table)
-        /\ cur.be = Best(table, cur.c.host, cur.c.path)
+        /\ cur.tabs = <<>> => (cur.be \in Targets(table) /\ cur.be = Best(table, cur.c.host, cur.c.path))
 \* a call is forwarded whenever its route's backend listens and is connected or never was
 ForwardedWhenReachable ==
     (cur.pc = "done" /\ cur.be # NoBackend /\ cur.unav = "yes") => ~up[cur.be]
@@ -400,7 +426,7 @@ DialOnlyWithoutEntry ==
 \* after a clean-up tick no pooled connection belongs to a backend outside the table, and
 \* whatever was taken out is closed once the closer ran (Drop): nothing else keeps it open
 CleanedAfterTick ==
-    hist[Len(hist)].op = "tick" => pool \subseteq Targets(table)
+    (hist[Len(hist)].op = "tick" /\ cur.pc = "idle") => pool \subseteq Targets(table)
 ClosedWhenDropped ==
     (bst.pc = "idle" /\ \A b \in Backends : closing[b] = 0) =>
         \A b \in Backends : open[b] = (IF b \in live THEN 1 ELSE 0)
